@@ -11,6 +11,7 @@ import (
 	"net/http"
 	"net/http/httptest"
 	"strings"
+	"time"
 
 	tpb "github.com/fullstorydev/grpchan/grpchantesting"
 	"google.golang.org/grpc"
@@ -218,6 +219,68 @@ func checkC08(e *core.Env) {
 		e.Eval(fmt.Sprintf("context-ends-before-status|%s|%s|ok=%v", c.Name, variant, out.OK), true)
 		if _, ran := res.run.HandlerReturn(); ran && out.Seen && out.OK {
 			e.Violate(c.Name+"/responses/context-ended/"+variant+"/success", fmt.Sprintf("the single response had arrived, the caller's context ended, the handler then went on (%s): the client reported success with that response", variant), witness(res.run))
+		}
+	})
+
+	// the caller's context ends and the handler finishes (badly) before the caller asks for its single response
+	e.Cases("late-receive-after-context-end", e.N(24, 200), func(i int, r *rand.Rand) {
+		var c *Carrier
+		for _, x := range cs.list {
+			if x.Name == "inproc" {
+				c = x
+			}
+		}
+		variant := pick(r, "error", "second-response")
+		for rep := 0; rep < 8; rep++ { // what the client finds first is a race between ready select cases: sample it
+			sc := &Script{Kind: ClientStream, RecvAfterSend: true}
+			sc.Sender = []Op{{Op: "send", Msg: &tpb.Message{Payload: []byte("req")}}, {Op: "close"}}
+			sc.Handler = []Op{{Op: "recvall"}, {Op: "send", Msg: &tpb.Message{Payload: []byte("the response")}}, {Op: "gate", Gate: "g"}}
+			if variant == "error" {
+				sc.Ret = Ret{How: "status", Code: uint32(codes.Aborted), Msg: "failed after responding"}
+			} else {
+				sc.Handler = append(sc.Handler, Op{Op: "send", Msg: &tpb.Message{Payload: []byte("one response too many")}})
+			}
+			sc.Receiver = []Op{{Op: "gate", Gate: "late"}, {Op: "recv"}}
+			run := c.Svc.NewRun(sc, c.Name)
+			ctx, cancel := context.WithCancel(context.Background())
+			done := make(chan struct{})
+			go func() {
+				run.Exec(c.CC, ctx, watchdog)
+				close(done)
+			}()
+			parked := false
+			for k := 0; k < 5000 && !parked; k++ {
+				for _, ev := range run.Events() {
+					if ev.Who == "h" && ev.Op == "gate:g" && ev.Call {
+						parked = true
+					}
+				}
+				if !parked {
+					time.Sleep(time.Millisecond)
+				}
+			}
+			cancel()
+			time.Sleep(time.Duration(200+r.Intn(1500)) * time.Microsecond)
+			run.Release("g")
+			select {
+			case <-run.handlerDone:
+			case <-time.After(5 * time.Second):
+			}
+			run.Release("late")
+			select {
+			case <-done:
+			case <-time.After(watchdog):
+				run.ReleaseAll()
+				<-done
+			}
+			run.Cancel()
+			c.Svc.Forget(run)
+			out := run.ClientOutcome()
+			e.Eval(fmt.Sprintf("late-receive|%s|ok=%v", variant, out.OK), parked)
+			if _, ran := run.HandlerReturn(); parked && ran && out.Seen && out.OK {
+				e.Violate("inproc/responses/late-receive/"+variant+"/success", fmt.Sprintf("the caller's context had ended and the handler had gone on (%s) before the caller asked for the response: the client reported success with the first response", variant), witness(run))
+				return
+			}
 		}
 	})
 
